@@ -402,6 +402,7 @@ class Case:
         self.rtouched = {}                        # (list key, i, fname) -> last directly assigned value
         self.grown = set()                        # lists the library has grown in this session
         self.f2_extended = set()                  # user-assigned lists the library has extended in place
+        self.f2_marked = set()                    # lists whose marker appeared during a commit that grew them
         self.shape_edit = False
         self.roles = {}                           # key -> role string (coverage)
         self.nsaves = 0
@@ -661,9 +662,12 @@ class Case:
         mobjs = {key: [{p.fname: p.mval for p in col} for col in L.objs] for key, L in W.lists.items()}
         pre_len = {key: (len(getattr(L.container, L.rname)) if getattr(L.container, L.rname) is not None else None)
                    for key, L in W.lists.items()}
+        grows_now, dirty_before = set(), {}
         for key, L in W.lists.items():
+            dirty_before[key] = getattr(L.container.retriever_map[L.rname], "is_dirty", None)
             if pre_len[key] is not None and len(L.objs) > pre_len[key]:
                 self.grown.add(key)
+                grows_now.add(key)
         fn = self.env.path()
         st, err = common.outcome(self.env.quiet, self.scn.write_to_file, fn)
         for key in self.roles:
@@ -674,6 +678,10 @@ class Case:
             self.tags.append("save:error:" + str(err))
             return
         self.cmd("save", "ok")
+        for key, L in W.lists.items():
+            # F2 attribution: the marker appeared during a commit that grew this list
+            if key in grows_now and dirty_before[key] is False and getattr(L.container.retriever_map[L.rname], "is_dirty", None):
+                self.f2_marked.add(key)
         # observation. The file is written from the live sections as they are after the commit
         # (Retriever.get_data_as_bytes serialises `data`), so those values are what the file holds; the file is
         # re-loaded with the library and, whenever it is a consistent file, must show the very same values
@@ -749,7 +757,7 @@ class Case:
             self.cmd(f"len {lkey}", f"{n} dirty={int(bool(dirty))}" if dirty is not None else f"{n} dirty=?")
             nm = len(L.objs)
             touched = self.ltouched.get(lkey, False)
-            by_growth = (not touched) and bool(dirty) and lkey in self.grown
+            by_growth = (not touched) and bool(dirty) and lkey in self.f2_marked
             if dirty is not None and bool(dirty) != touched:
                 sig = {"clause": "bookkeeping_never_marks", "field_kind": "object-list", "marked": bool(dirty)}
                 if by_growth:
@@ -906,7 +914,11 @@ def gen_phase(case, rng, inten, allow_shape):
         if rng.random() < pu:
             if (rname in case.env.shape_names or is_counted(cont.retriever_map[rname])) and not allow_shape:
                 continue
-            v = alt_value(cont.retriever_map[rname].datatype, getattr(cont, rname), rng, small=rng.random() < 0.8)
+            cur = getattr(cont, rname)
+            if rng.random() < 0.15 and cur is not None:
+                v = list(cur) if isinstance(cur, list) else cur          # pin the field to the value it already has
+            else:
+                v = alt_value(cont.retriever_map[rname].datatype, cur, rng, small=rng.random() < 0.8)
             if v is not None:
                 ops2.append({"op": "user", "key": key, "val": enc(v)})
     for slot, p in W.plains.items():
@@ -924,7 +936,11 @@ def gen_phase(case, rng, inten, allow_shape):
         for i, r in enumerate(recs):
             for f in case.lfields.get(lkey, []):
                 if rng.random() < pu:
-                    v = alt_value(dts[f], getattr(r, f), rng, small=rng.random() < 0.8)
+                    cur = getattr(r, f)
+                    if rng.random() < 0.15 and cur is not None:
+                        v = list(cur) if isinstance(cur, list) else cur
+                    else:
+                        v = alt_value(dts[f], cur, rng, small=rng.random() < 0.8)
                     if v is not None:
                         ops2.append({"op": "urec", "list": lkey, "i": i, "f": f, "val": enc(v)})
         for i, col in enumerate(L.objs):
@@ -955,13 +971,34 @@ def sigkey(sig):
     return json.dumps(sig, sort_keys=True)
 
 
-def shrink(env, allow, source, fixed, ops, target, max_trials=90):
+def shrink(env, allow, source, fixed, ops, target, max_trials=90, vkey=None):
     """greedy removal of ops while a violation with the same signature remains"""
     def fails(o):
         c = run_ops(env, allow, source, fixed, o)
         return any(sigkey(s) == target for s, _ in c.violations)
     trials = 0
-    # drop every user / manager value edit at once, then halves, then single ops
+    # 1. only the ops that speak about the violating field (plus structure ops and saves)
+    if vkey is not None:
+        c0 = Case(env, allow, source, fixed)
+        slot_key = {slot: p.key for slot, p in c0.W.plains.items()}
+
+        def relevant(o):
+            k = o["op"]
+            if k in ("api", "save", "ulist"):
+                return True
+            if k == "user":
+                return o["key"] == vkey
+            if k == "mset":
+                return slot_key.get(o["slot"]) == vkey
+            if k in ("urec", "mrec"):
+                return vkey.startswith(o["list"] + "[") and vkey.endswith("." + o["f"])
+            return False
+        cand = [o for o in ops if relevant(o)]
+        if len(cand) < len(ops):
+            trials += 1
+            if fails(cand):
+                ops = cand
+    # 2. whole classes of value edits, then single ops
     for pred in (lambda o: o["op"] in ("api", "save", "ulist"), lambda o: o["op"] != "mset", lambda o: o["op"] != "mrec",
                  lambda o: o["op"] != "user", lambda o: o["op"] != "urec"):
         cand = [o for o in ops if pred(o)]
@@ -969,6 +1006,13 @@ def shrink(env, allow, source, fixed, ops, target, max_trials=90):
             trials += 1
             if fails(cand):
                 ops = cand
+    # cut everything after the first save that shows it
+    for k in range(1, len(ops)):
+        if ops[k - 1]["op"] == "save":
+            trials += 1
+            if fails(ops[:k]):
+                ops = ops[:k]
+                break
     i = len(ops) - 1
     while i >= 0 and trials < max_trials:
         cand = ops[:i] + ops[i + 1:]
@@ -976,13 +1020,6 @@ def shrink(env, allow, source, fixed, ops, target, max_trials=90):
         if fails(cand):
             ops = cand
         i -= 1
-    # cut everything after the save that shows it
-    for k in range(1, len(ops) + 1):
-        if ops[k - 1]["op"] == "save" and trials < max_trials + 20:
-            trials += 1
-            if fails(ops[:k]):
-                ops = ops[:k]
-                break
     return ops
 
 
@@ -1020,6 +1057,7 @@ def run(ctx):
             R.extra["driver"] = "unavailable (Lean build failed) - oracles only"
         rng = ctx.rng
         seen_sigs = {}
+        shrink_budget = [ctx.budget(30, 120)]      # seconds spent on minimising failing histories
         pending = []            # cases waiting for the driver batch
 
         def flush():
@@ -1072,9 +1110,15 @@ def run(ctx):
                 if sk in seen_sigs:
                     seen_sigs[sk]["count"] += 1
                     continue
-                small = shrink(env, cs.allow, cs.source, fixed, cs.ops, sk)
-                c2 = run_ops(env, cs.allow, cs.source, fixed, small)
-                what2 = next((w for s, w in c2.violations if sigkey(s) == sk), what)
+                import time
+                t0 = time.time()
+                if shrink_budget[0] > 0 and len(seen_sigs) < 8:
+                    small = shrink(env, cs.allow, cs.source, fixed, cs.ops, sk, vkey=what.split(":")[0])
+                    c2 = run_ops(env, cs.allow, cs.source, fixed, small)
+                    what2 = next((w for s, w in c2.violations if sigkey(s) == sk), what)
+                else:
+                    small, what2 = cs.ops, what
+                shrink_budget[0] -= time.time() - t0
                 seen_sigs[sk] = {"signature": sig, "what": what2, "count": 1,
                                  "replay": {"allow": int(cs.allow), "source": cs.source, "ops": small, "found_by": label}}
             if cs.reload_diffs:
